@@ -194,6 +194,24 @@ func restyleYAML(b []byte, data any) []byte {
 			it.Content = rev
 		}
 	case 7:
+		// an instance that repeats an earlier one word for word is written as an alias of it (- *i1)
+		whole := map[string]*yaml.Node{}
+		wn := 0
+		for idx, it := range seq.Content {
+			if it.Kind != yaml.MappingNode {
+				continue
+			}
+			b, _ := yaml.Marshal(it)
+			if first, ok := whole[string(b)]; ok {
+				if first.Anchor == "" {
+					wn++
+					first.Anchor = fmt.Sprintf("i%d", wn)
+				}
+				seq.Content[idx] = &yaml.Node{Kind: yaml.AliasNode, Alias: first, Value: first.Anchor}
+			} else {
+				whole[string(b)] = it
+			}
+		}
 		seen := map[string]*yaml.Node{}
 		n := 0
 		for _, it := range seq.Content {
